@@ -15,7 +15,7 @@ from vlib.mc import enum as E
 PROPERTY = 'C17'
 LEVEL = 'exploration'
 ENGINE = 'C'
-TECHNIQUE = ('bounded-exhaustive enumeration of component tuples, PEP 440 '
+TECHNIQUE = ('stateless bounded model checking: complete enumeration of component tuples, PEP 440 '
              'version pairs and predicate conjunctions against positional '
              'arithmetic and packaging.version ordering')
 LEVEL_TEXT = ('All component tuples up to the stated length over {0, 1, 9, 10, '
